@@ -318,6 +318,17 @@ def discharge(F, s):
                 return _auto(s, "constant radix %d" % r.off)
             return False
         if kind == "call:unwrap":
+            import lib
+            recv = b.oname(t["args"][0], 3)
+            nm0 = t["f"].get("fn") or ""
+            for c, tr in rendered_guards(b, s.bb):
+                m = re.match(r"^(is_none|is_some|is_ok|is_err)\(&?(.*)\)$", c)
+                if m and m.group(2) == recv:
+                    good = {("is_none", False), ("is_some", True)} if "Option" in nm0 else {("is_ok", True), ("is_err", False)}
+                    if nm0.endswith("unwrap_err") or nm0.endswith("expect_err"):
+                        good = {("is_err", True), ("is_ok", False)}
+                    if (m.group(1), tr) in good:
+                        return _auto(s, "dominated by %s(%s) == %s" % (m.group(1), recv, tr))
             # Mutex poisoning: lock()/into_inner() only fail after another thread panicked while holding the lock
             d = b.def_rv(t["args"][0])
             if d and d[2] == "call":
@@ -366,6 +377,86 @@ def range_operands(b, o):
 
 # ----------------------------------------------------------------------------- table
 
+def closure_creation_blocks(F, closure_body):
+    """(parent body, block) pairs where the closure value is constructed."""
+    out = []
+    par = closure_body.path.rsplit("::{closure", 1)[0]
+    pb = F.bodies.get(par)
+    if pb is None:
+        return out
+    for bi, si, st in pb.stmts():
+        rv = st.get("rv")
+        if rv and rv["k"] == "agg" and rv["kind"].get("a") == "closure" and rv["kind"]["def"] == closure_body.path:
+            out.append((pb, bi))
+    return out
+
+
+def rendered_guards(b, bb):
+    """[(rendered condition, truth)] for every two-way branch whose taken edge dominates bb."""
+    import lib
+    out = []
+    for g, s2 in lib.taken_edges(b, bb):
+        t = b.term(g)
+        if t["dty"] == "bool":
+            truth = (t["else"] == s2)
+            out.append((b.oname(t["d"], 5), truth))
+        else:
+            for v, x in t["tg"]:
+                if x == s2:
+                    out.append(("%s==%s" % (b.oname(t["d"], 5), v), True))
+            if t["else"] == s2:
+                out.append(("%s==other" % b.oname(t["d"], 5), True))
+    return out
+
+
+def verify_guards(F, s, guards):
+    """re-verify the machine-checkable part of a tabled argument; returns (ok, why)."""
+    b = s.body
+    for g in guards:
+        kind = g["kind"]
+        if kind == "dominating":
+            where = g.get("where", "self")
+            places = [(b, s.bb)] if where == "self" else closure_creation_blocks(F, b)
+            if not places:
+                return False, "closure creation site not found for %s" % b.path
+            rx = re.compile(g["cond"])
+            for pb, bb in places:
+                if not any(rx.search(c) and (("truth" not in g) or tr == g["truth"]) for c, tr in rendered_guards(pb, bb)):
+                    return False, "no dominating branch on /%s/ (%s) in %s" % (g["cond"], g.get("truth", "any"), F.canon_of(pb))
+        elif kind == "exists":
+            fb = F.fn(g["fn"])
+            rx = re.compile(g["cond"])
+            found = False
+            for body in F.with_closures(fb):
+                for bi in range(body.n):
+                    t = body.term(bi)
+                    if t["k"] == "switch" and rx.search(body.oname(t["d"], 5)):
+                        found = True
+            if not found:
+                return False, "%s no longer branches on /%s/" % (g["fn"], g["cond"])
+        elif kind == "call-arg":
+            fb = None
+            if g.get("fn") == "parent":
+                cc = closure_creation_blocks(F, b)
+                fb = cc[0][0] if cc else None
+            else:
+                fb = F.fn(g["fn"]) if g.get("fn") else b
+            if fb is None:
+                return False, "parent not found"
+            rx = re.compile(g["callee"])
+            mx = re.compile(g["matches"])
+            hit = False
+            for c in fb.calls:
+                if rx.search(c.fn or "") or rx.search(c.name or ""):
+                    if g["arg"] < len(c.args) and mx.search(fb.oname(c.args[g["arg"]], 6)):
+                        hit = True
+            if not hit:
+                return False, "no call /%s/ with argument %d matching /%s/ in %s" % (g["callee"], g["arg"], g["matches"], F.canon_of(fb))
+        else:
+            return False, "unknown guard kind %s" % kind
+    return True, "guards re-verified"
+
+
 def load_table(name):
     p = os.path.join(V, "tables", name)
     if not os.path.exists(p):
@@ -401,10 +492,23 @@ def inventory(ctx, F, scope, table, rule="R-INV", kinds=None):
         allowed = r["n"] if r else 0
         for i, s in enumerate(ss):
             if i < allowed:
+                gok, gwhy = (True, "")
+                if r.get("guards"):
+                    try:
+                        gok, gwhy = verify_guards(F, s, r["guards"])
+                    except Exception as e:
+                        gok, gwhy = False, "guard spec could not be evaluated: %r" % e
+                if not gok:
+                    s.status = "open"
+                    stats["open"] += 1
+                    ctx.finding(rule, s.key, "the reviewed argument for %s site `%s` in %s no longer holds: %s (argument: %s)" % (s.kind, s.term, s.fn, gwhy, r["reason"]), s.where(),
+                                detail={"kind": s.kind, "term": s.term, "function": s.fn, "guard": gwhy})
+                    continue
                 s.status = "tabled"
-                s.how = r["reason"]
+                s.how = r["reason"] + (" [guards re-verified]" if r.get("guards") else "")
                 stats["tabled"] += 1
-                ctx.obligations.append({"rule": rule, "key": s.key, "status": "discharged", "how": "TABLED: " + r["reason"], "where": s.where(), "nontrivial": True})
+                stats["tabled_guarded"] += 1 if r.get("guards") else 0
+                ctx.obligations.append({"rule": rule, "key": s.key, "status": "discharged", "how": "TABLED: " + s.how, "where": s.where(), "nontrivial": True})
             else:
                 s.status = "open"
                 stats["open"] += 1
